@@ -29,6 +29,11 @@ var vfFWMu sync.Mutex
 // tail-truncating writer with short writes).
 var vfFlateEmit int
 
+// vfFlateEOFWithData: the model reader returns the last bytes of a BFINAL
+// block together with io.EOF (legal for an io.Reader; a real inflater does so
+// when the final block ends the stream).
+var vfFlateEOFWithData bool
+
 var vfErrFlateLevel = errors.New("flate: invalid compression level (model)")
 var vfErrFlateCorrupt = errors.New("flate: corrupt input (model)")
 
@@ -181,6 +186,11 @@ func (r *vfFlateR) Read(p []byte) (int, error) {
 	}
 	n, err := r.src.Read(p)
 	r.remain -= n
+	if err == nil && vfFlateEOFWithData && r.final && r.remain == 0 && n > 0 {
+		r.done = true
+		r.err = io.EOF
+		return n, io.EOF
+	}
 	if err != nil {
 		if err == io.EOF {
 			if r.remain > 0 || !r.final {
